@@ -55,7 +55,7 @@ func (c13Prop) Rule() string {
 func (c13Prop) Phases(tier string) []PhaseCfg {
 	n := 60_000
 	if tier == "thorough" {
-		n = 4_000_000
+		n = 20_000_000
 	}
 	return []PhaseCfg{{Name: "seeded", Count: n}}
 }
